@@ -141,6 +141,8 @@ NotVacuous ==
      /\ Judge(Judge(NewState(TRUE), c(1, "x"))[2], [c(1, "z") EXCEPT !.own = "pool"])[1] = "ownership-option-changes-result"
      /\ Judge(Judge(NewState(FALSE), c(1, "x"))[2], [c(1, "z") EXCEPT !.own = "pool"])[1] = "ok"
 
+ASSUME NotVacuous
+
 Export ==
   /\ HistComplete => PrintT("BEH " \o ToJson([kind |-> "hist", opt |-> opt, h |-> hist]))
   /\ ShareComplete => PrintT("BEH " \o ToJson([kind |-> "share", progs |-> progs]))
